@@ -13,6 +13,8 @@ From XcpProofs Require Import OpsProofs ConcBlockProofs ConcFileProofs ConcOutco
 From XcpModel Require Import Extracted.
 From XcpProofs Require Import ExtractedOk.
 From Coq Require Import Permutation.
+From XcpProofs Require Import PinnedSource.
+From XcpPins Require Import Pin_operations_finalise_copy Pin_operations_drop Pin_common_sync.
 Local Open Scope nat_scope.
 
 Theorem C18_fsync_is_last_action : forall fc src dst e l,
@@ -89,6 +91,15 @@ Proof. eexists. split; [vm_compute; reflexivity|reflexivity]. Qed.
 Theorem C18_src_fsync_is_last_step : exists pre, x_finalise_order = pre ++ [(10%N, false)] /\ forallb (fun s => negb (N.eqb (fst s) 10)) pre = true.
 Proof. exists (removelast x_finalise_order). split; vm_compute; reflexivity. Qed.
 
+(* ---- the glue functions this property's hand-written model mirrors are, token for token, the ones it was
+   validated against (an edit re-opens the obligation; harness/repin.py re-pins after re-validation) ---- *)
+Theorem C18_src_pin_operations_finalise_copy : pin_unchanged name_operations_finalise_copy.
+Proof. exact pin_operations_finalise_copy. Qed.
+Theorem C18_src_pin_operations_drop : pin_unchanged name_operations_drop.
+Proof. exact pin_operations_drop. Qed.
+Theorem C18_src_pin_common_sync : pin_unchanged name_common_sync.
+Proof. exact pin_common_sync. Qed.
+
 Print Assumptions C18_fsync_is_last_action.
 Print Assumptions C18_finalise_after_every_write.
 Print Assumptions C18_every_file_finalised_once_parblock.
@@ -96,3 +107,6 @@ Print Assumptions C18_every_file_finalised_once_parfile.
 Print Assumptions C18_no_handle_survives.
 Print Assumptions C18_src_fsync_is_last_step.
 Print Assumptions C18_fsync_last_in_every_schedule.
+Print Assumptions C18_src_pin_operations_finalise_copy.
+Print Assumptions C18_src_pin_operations_drop.
+Print Assumptions C18_src_pin_common_sync.
